@@ -1,17 +1,8 @@
 INIT TInit
 NEXT TNext
 CONSTANTS
-  Signs = {}
-  Sigs = {}
-  Exps = {}
-  Precs = {}
-  UncSigs = {}
-  UncOffs = {}
-  UncPrecs = {}
-  Units = {}
-  Convs = {}
-  UncSrcs = {"arg"}
-  RomanMax = 0
+  SliceTable <- TraceTable
+  SliceNames = {"trace"}
 INVARIANT Verdict
 INVARIANT ModelNumberDenotes
 INVARIANT ModelUncertDenotes
